@@ -38,7 +38,7 @@ class C17(Check):
         "Hypothesis draws a model of 1-6 dataclasses over the annotation grammar (T, Optional[T], List/Set/Sequence"
         "[T], Type[T], enum, datetime, classes outside the diagram; the module either uses the future import - all "
         "annotations are strings - or evaluates its annotations with quoted class references inside the typing "
-        "wrappers; multi-level and multiple inheritance (a second, base-less base class) with inherited association fields; underscore fields), a non-empty subset "
+        "wrappers; multi-level and multiple inheritance (a second, base-less base class; a parameterised generic base outside the diagram) with inherited association fields; underscore fields), a non-empty subset "
         "in any order handed to ClassDiagram, and a sequence of read-only operations (sub-diagram without "
         "inherited associations with/without field names, association/inheritance listings, out-edge and "
         "neighbour queries on the diagram, and reading a derived view before asking the source about the same class). Oracle: an independent reading of the model IR: one node per class, inheritance edges "
@@ -60,7 +60,7 @@ class C17(Check):
     def strategy(self, tier, exclude):
         @st.composite
         def ir(draw):
-            model = draw(MI.model_ir(max_classes=6, grammar="diagram", allow_mixin=True))
+            model = draw(MI.model_ir(max_classes=6, grammar="diagram", allow_mixin=True, allow_generic=True))
             model["future"] = draw(st.booleans())
             n = len(model["classes"])
             k = draw(st.integers(1, n)) if draw(st.sampled_from([0, 0, 1])) else n
@@ -106,7 +106,8 @@ class C17(Check):
         classes_ = [f"classes{min(len(subset), 4)}"] + (["inherited_association"] if inherited_assoc else []) + (
             ["proper_subset"] if len(subset) < len(names) else []) + (
             ["annotations_as_strings"] if model.get("future", True) else ["evaluated_annotations_with_quoted_references"]) + (
-            ["multiple_inheritance"] if any(c.get("base2") is not None for c in model["classes"]) else []) + sorted({"field_" + f["t"]["k"] for c in model["classes"] for f in c["fields"]})
+            ["multiple_inheritance"] if any(c.get("base2") is not None for c in model["classes"]) else []) + (
+            ["parameterised_generic_base"] if any(c.get("generic") for c in model["classes"]) else []) + sorted({"field_" + f["t"]["k"] for c in model["classes"] for f in c["fields"]})
         nontrivial = inherited_assoc and len(subset) >= 2
 
         def bad(kind, msg):
